@@ -9,32 +9,38 @@ import (
 )
 
 func main() {
-	defer cleanupScratch()
+	rc := run()
+	cleanupScratch() // solver scratch files (os.Exit would skip a deferred call)
+	os.Exit(rc)
+}
+
+func run() int {
 	if len(os.Args) < 2 {
 		fmt.Println("usage: govc verify [-trace] <pkg.key>... | govc check <Cxx> quick|thorough | govc loops <key>")
-		os.Exit(2)
+		return 2
 	}
 	switch os.Args[1] {
 	case "verify":
-		os.Exit(cmdVerify(os.Args[2:]))
+		return cmdVerify(os.Args[2:])
 	case "check":
-		os.Exit(cmdCheck(os.Args[2:]))
+		return cmdCheck(os.Args[2:])
 	case "loops":
-		os.Exit(cmdLoops(os.Args[2:]))
+		return cmdLoops(os.Args[2:])
 	case "evalgoto":
-		os.Exit(cmdEvalGoto(os.Args[2:]))
+		return cmdEvalGoto(os.Args[2:])
 	case "evalcolor":
-		os.Exit(cmdEvalColor(os.Args[2:]))
+		return cmdEvalColor(os.Args[2:])
 	case "evallookup":
-		os.Exit(cmdEvalLookup(os.Args[2:]))
+		return cmdEvalLookup(os.Args[2:])
 	case "dump":
-		os.Exit(cmdDump(os.Args[2:]))
+		return cmdDump(os.Args[2:])
 	case "replay":
-		os.Exit(cmdReplay(os.Args[2:]))
+		return cmdReplay(os.Args[2:])
 	default:
 		fmt.Println("unknown command", os.Args[1])
-		os.Exit(2)
+		return 2
 	}
+	return 0
 }
 
 const modPath = "github.com/gdamore/tcell/v2"
